@@ -413,6 +413,39 @@ runs last, the open control `very_low`; `status = Closed if _internal_status == 
 def postsolveInternal (close open_ : Bool) (internal : Status) : Status :=
   if close then .closed else if open_ then .opened else internal
 
+/-! ### the DOCUMENTED constants (reference for the oracles; `Props/C02.lean` proves the generated constants equal them)
+
+Hazen-Williams in SI units: `h = 10.667·C^(−1.852)·d^(−4.871)·L·q^1.852` (WNTR / EPANET documentation), minor loss
+`8K/(g·π²·d⁴)·q²`, smoothing break points `2e-4 / 4e-4 m³/s`, `m = 0.001`; pump smoothing `q2 = 1e-8`, slope `−1e-11`;
+EPANET status tolerances `Htol = 0.0005 ft`, `Qtol = 0.0001 cfs`; each number is the IEEE double of the literal. -/
+
+def refF2 : Rat := (4810661371122883 : Rat) / 9444732965739290427392    -- 0.0004 ** 1.852
+def refDf2 : Rat := (679729069467131 : Rat) / 288230376151711744        -- 1.852 * 0.0004 ** 0.852
+
+def refHW : HWConsts :=
+  let q1 : Rat := (7378697629483821 : Rat) / 36893488147419103232
+  let q2 : Rat := (7378697629483821 : Rat) / 18446744073709551616
+  let m : Rat := (1152921504606847 : Rat) / 1152921504606846976
+  let sp := cubicSpline q1 q2 (m * q1) refF2 m refDf2
+  { hwK := (6004891170198541 : Rat) / 562949953421312, hwExp := (8340666509890159 : Rat) / 4503599627370496,
+    minorExp := 2, q1 := q1, q2 := q2, m := m, a := sp.1, b := sp.2.1, c := sp.2.2.1, d := sp.2.2.2 }
+
+def refPC : PumpConsts :=
+  { q1 := 0, q2 := (3022314549036573 : Rat) / 302231454903657293676544,
+    slope := (-6189700196426901 : Rat) / 618970019642690137449562112 }
+
+def refLit : RowLits := { eps := (5902958103587057 : Rat) / 590295810358705651712, half := 1 / 2, gammaW := 9810 }
+
+def refHtol : Rat := (5622567593666671 : Rat) / 36893488147419103232      -- 0.0001524 m
+def refQtol : Rat := (3343057680553079 : Rat) / 1180591620717411303424    -- 2.83168e-6 m³/s
+def refHwE2 : Rat := (-2742129223115211 : Rat) / 562949953421312           -- −4.871
+def refGpi2 : Rat := (6813159455575387 : Rat) / 70368744177664             -- 9.81·π²
+
+/-- `k = 10.667·C^−1.852·d^−4.871·L` -/
+def refHwResistance : Expr := hwResistanceExpr refHW.hwK (-refHW.hwExp) refHwE2
+/-- `8K/(g·π²·d⁴)` -/
+def refLossCoeff : Expr := lossCoeffExpr 8 refGpi2 4
+
 /-! ### the zoo tables the translator emits (`Gen/RowsC01.lean`, `Gen/RowsC02.lean`) and their checkers -/
 
 /-- one link object of the zoo: `(name, start_node_name, end_node_name)` -/
